@@ -6,6 +6,11 @@ real library runs in 'lazy' world; `vlib/oracles/c17_model.Model` is the eager t
 evaluates the same callables eagerly and predicts hit / miss / evict of both bounded
 caches with a reference LRU. After every operation the value, the per-callable call
 counters, cache_info()/object_info() and the LruCache invariants are compared.
+
+Two further case kinds: 'ident' histories request one expression OBJECT (a cached call whose
+callable / argument hashes by identity and is pickled by value) directly and through the
+pickler (`_classify_ident` decides whether a failure carries the identity-hash signature);
+'conc' scenarios (vlib/c17conc.py) run 2-3 scheduler-controlled threads against fresh caches.
 """
 
 from __future__ import annotations
@@ -22,7 +27,12 @@ RULE = (
     'make / pickle / clear / dereference history; "hist_*" cases are 300-3000 operations '
     'over more distinct cached expressions than the bound (128 LazyFn results, 1024 '
     'LazyObjects, or a harness-reduced bound); non-trivial = tree depth >= 2 or a history '
-    'in which the reference LRU evicted; distinct = hash of the generator tuple')
+    'in which the reference LRU evicted; distinct = hash of the generator tuple. "ident" cases '
+    'request ONE expression object (cached call with a lambda / closure / functools.partial '
+    'callable or an identity-hashed argument, plus importable controls) 5-18 times directly and '
+    'through the pickler. "conc" cases run 2-3 scheduler-controlled threads that request the '
+    'same cached call (same_expr) or insert distinct cached calls into a full cache of bound '
+    '1-4 (evict_race) under one seeded interleaving; distinct = (scenario, schedule trace)')
 ASSUMPTIONS = [
     'constants are ints, strs, tuples of those and None: ==-equal values of different '
     'types (1, True, 1.0) never occur in one history (functools.lru_cache convention)',
@@ -35,7 +45,16 @@ ASSUMPTIONS = [
     'callables never raise; the only expected error is LazyObjectMissingError',
     'reduced-bound histories set LruCache.maxsize from the harness before the first '
     'operation on empty caches and restore it afterwards',
-    'single-threaded histories (concurrent materialisation belongs to C14)',
+    'histories are single-threaded; concurrent materialisation is exercised by the separate '
+    '"conc" scenarios only (pre-emption at statement boundaries of _maybe_lru_cache / LruCache / '
+    'LazyFn.__hash__/result_ and inside the user callables; a watchdog or step-bound '
+    'expiry is inconclusive, never a verdict)',
+    'conc scenarios re-decorate LazyFn.result_ / LazyObject.result_ with the library\'s own '
+    '_maybe_lru_cache (fresh caches, scenario bound) after the threading shims are installed and '
+    'restore the originals afterwards',
+    'ident histories: the eager twin counts one evaluation per cached expression OBJECT (the '
+    'LazyFn id survives pickling and LazyFn.__eq__ honours it); rebuilt expressions are not '
+    'generated there (a new closure / Cfg object is a different expression)',
     'the direct LruCache sub-check writes a key only when it is absent (the only way the '
     'library writes); recency after overwriting a present key is unspecified',
 ]
@@ -50,6 +69,9 @@ REQUIRED = [
     'op:make', 'op:deref', 'op:use_ref', 'op:new_obj', 'op:clear_cache', 'op:clear_object',
     'flag:cache', 'flag:lazy_root', 'flag:lazy_chain', 'node:attr', 'node:item',
     'node:callres', 'node:lazy_arg', 'node:kwargs_lazy',
+    'ident_histories', 'ident_pickled_makes', 'ident_control_pickled_makes',
+    'conc_schedules', 'conc_same_expr', 'conc_evict_race', 'conc_line_preemptions',
+    'conc_same_expr_checks', 'conc_evict_race_checks',
 ]
 CHUNK_TIMEOUT_S = {'quick': 240, 'thorough': 3000}
 
@@ -58,11 +80,13 @@ def plan(tier, seed):
   specs = [{'mode': 'directed', 'index': 0, 'count': 0, 'rseed': seed}]
   if tier == 'quick':
     tree_chunks, per_tree = 16, 900
-    hist = [('hist_fn', 8, 16), ('hist_obj', 8, 8), ('hist_small', 8, 30)]
+    hist = [('hist_fn', 8, 16), ('hist_obj', 8, 8), ('hist_small', 8, 30), ('ident', 4, 150),
+            ('conc', 8, 120)]
     lru = (8, 300)
   else:
     tree_chunks, per_tree = 32, 12000
-    hist = [('hist_fn', 16, 120), ('hist_obj', 16, 50), ('hist_small', 16, 360)]
+    hist = [('hist_fn', 16, 120), ('hist_obj', 16, 50), ('hist_small', 16, 360),
+            ('ident', 8, 1500), ('conc', 16, 1500)]
     lru = (8, 5000)
   for i in range(tree_chunks):
     specs.append({'mode': 'tree', 'index': i, 'count': per_tree, 'rseed': seed})
@@ -99,6 +123,8 @@ def gen_case(gen):
   if kind == 'hist_small':
     return _gen_hist(rng, M, fn_bound=rng.randint(2, 12), obj_bound=rng.randint(2, 12),
                      focus='small')
+  if kind == 'ident':
+    return _gen_ident(rng, M)
   raise ValueError(kind)
 
 
@@ -161,6 +187,23 @@ def _gen_tree_case(rng, M):
   if slots:
     ops.append(('deref', rng.randrange(slots), 'direct'))
   return {'pool': [node], 'ops': ops, 'bounds': {'fn': 128, 'obj': 1024}}
+
+
+PICKLED_VIAS = ('pickle', 'picklez', 'loads')
+IDENT_VIAS = ['direct', 'direct', 'pickle', 'picklez', 'loads']
+
+
+def _gen_ident(rng, M):
+  """Requests of ONE expression object (same LazyFn id) directly and through the pickler."""
+  pool = M.gen_ident_pool(rng)
+  ops = []
+  for _ in range(rng.randint(5, 18)):
+    r = rng.random()
+    if r < 0.93:
+      ops.append(('make', rng.randrange(len(pool)), rng.choice(IDENT_VIAS)))
+    else:
+      ops.append(('clear_cache',))
+  return {'pool': pool, 'ops': ops, 'bounds': {'fn': 128, 'obj': 1024}}
 
 
 def _gen_hist(rng, M, fn_bound, obj_bound, focus):
@@ -314,6 +357,7 @@ def run_history(ctx, gen, light=False):
   from ml_metrics._src.chainables import lazy_fns
   from vlib.oracles import c17_lib as lib
   from vlib.oracles import c17_model as M
+  lib.reset_locals()
   case = gen_case(gen)
   kind = gen[3]
   pool, ops, bounds = case['pool'], case['ops'], case['bounds']
@@ -342,6 +386,8 @@ def run_history(ctx, gen, light=False):
     failure = None
   except _Fail as f:
     failure = f
+    if kind == 'ident':
+      _classify_ident(lazy_fns, M, pool, ops, state['i'], f)
   finally:
     fn_lru.maxsize, obj_lru.maxsize = saved
     lazy_fns.clear_cache()
@@ -357,6 +403,14 @@ def run_history(ctx, gen, light=False):
     ctx.count('hist_obj_bound_1024')
   elif kind == 'hist_small':
     ctx.count('hist_reduced_bound')
+  elif kind == 'ident':
+    ctx.count('ident_histories')
+    ctx.count('ident_pickled_makes', sum(
+        1 for o in ops if o[0] == 'make' and o[2] in PICKLED_VIAS
+        and M.has_identity_hashed(pool[o[1]])))
+    ctx.count('ident_control_pickled_makes', sum(
+        1 for o in ops if o[0] == 'make' and o[2] in PICKLED_VIAS
+        and not M.has_identity_hashed(pool[o[1]])))
   ctx.count('predicted_evictions_fn', model.fn.evictions)
   ctx.count('predicted_evictions_obj', model.obj.evictions)
   ctx.count('evaluations_counted', sum(lib.COUNTS['eager'].values()))
@@ -379,6 +433,58 @@ def run_history(ctx, gen, light=False):
   elif len(ctx.samples) < 3 and nontrivial:
     ctx.sample({'gen': list(gen), 'expr': M.show(pool[0])[:300], 'ops': len(ops),
                 'bounds': bounds})
+
+
+def _cached_subexprs(x, lazy_fns, out=None):
+  """All cached LazyFns inside a real expression, in a fixed traversal order."""
+  out = [] if out is None else out
+  if isinstance(x, lazy_fns.LazyFn):
+    if x.cache_result:
+      out.append(x)
+    _cached_subexprs(x.value, lazy_fns, out)
+    for a in x.args:
+      _cached_subexprs(a, lazy_fns, out)
+    for _, a in x.kwargs:
+      _cached_subexprs(a, lazy_fns, out)
+  return out
+
+
+IDENT_MECHANISM = 'cached-lazyfn-identity-hash-reevaluated-after-pickle'
+
+
+def _classify_ident(lazy_fns, M, pool, ops, i, failure):
+  """Attributes a failure of an 'ident' history to the identity-hash root cause only when
+  (a) the failing expression has a cached call with a by-value callable / identity-hashed
+  argument, (b) that expression went through the pickler at or before the failing request,
+  (c) the symptom is a re-evaluation (never a lost one) and (d) two unpickled copies of the
+  expression are == (same id) but hash differently. Anything else keeps its own key."""
+  op = ops[i] if 0 <= i < len(ops) else None
+  generic = 'ident/' + failure.mechanism
+  failure.mechanism = generic
+  if not op or op[0] != 'make':
+    return
+  idx = op[1]
+  node = pool[idx]
+  symptom = failure.kind in ('roundtrip_expression_not_equal', 'value_differs_from_eager',
+                             'cached_result_not_identical',
+                             'cache_info_differs_from_reference_lru') or (
+                                 failure.kind == 'evaluation_count_differs'
+                                 and generic.endswith('/evaluated-more'))
+  pickled_before = any(o[0] == 'make' and o[1] == idx and o[2] in PICKLED_VIAS
+                       for o in ops[:i + 1])
+  if not (symptom and pickled_before and M.has_identity_hashed(node)):
+    return
+  expr = M.build(node, lazy_fns)
+  a = lazy_fns.pickler.loads(lazy_fns.pickler.dumps(expr))
+  b = lazy_fns.pickler.loads(lazy_fns.pickler.dumps(expr))
+  pairs = list(zip(_cached_subexprs(a, lazy_fns), _cached_subexprs(b, lazy_fns)))
+  unstable = [(x, y) for x, y in pairs if x == y and hash(x) != hash(y)]
+  if unstable:
+    failure.detail = dict(failure.detail, symptom=failure.kind,
+                          two_unpickled_copies={'eq': True, 'same_id': unstable[0][0].id == unstable[0][1].id,
+                                                'hash_eq': False})
+    failure.kind = 'cached_call_reevaluated_after_pickle'
+    failure.mechanism = IDENT_MECHANISM
 
 
 def _mech_for_node(M, node, base):
@@ -731,6 +837,11 @@ def run_chunk(ctx, spec):
     return
   if mode == 'tree':
     check_both_flags(ctx)
+  if mode == 'conc':
+    from vlib import c17conc
+    for i in range(spec['count']):
+      c17conc.run_case(ctx, [spec['rseed'], spec['index'], i, 'conc'])
+    return
   if mode == 'directed':
     for i in range(len(_directed_cases())):
       ctx.count('directed_cases')
@@ -747,5 +858,8 @@ def run_case(ctx, case):
   gen = case['gen']
   if gen[3] == 'lru_direct':
     run_lru_direct(ctx, gen)
+  elif gen[3] == 'conc':
+    from vlib import c17conc
+    c17conc.run_case(ctx, gen)
   else:
     run_history(ctx, gen)
